@@ -36,8 +36,13 @@ ASSUMPTIONS = ['cascades not in the model (exercised by the oracle only): Modify
                'DetachSummaryViewSection, chart/form sections, copies of display columns and rules made when a summary '
                'table or a card section is created, updates propagated to sister columns of summary tables, '
                'visibleCol/linkSrc* written directly',
-               'update_summary_section enters the model through recorded descriptors (target table, deleted/moved/new '
-               'fields); the theorems exclude the two actions that run it (C09_full is refuted with them)',
+               'update_summary_section enters the model through recorded descriptors (target table, the fields moved and '
+               'their new columns, new fields); the model validates them (columns of the target table; the sections '
+               'doRemoveColumns regroups are computed by the model, raw sections excluded; fields not moved are '
+               'deleted); descriptors it rejects count as outside the fragment',
+               'the theorem excludes one case: the user action UpdateSummaryViewSection on the raw section of a summary '
+               'table, which the code accepts (known finding; C09_full is refuted by it); the exclusion is evaluated '
+               'on every recorded bundle',
                'direct AddRecord/UpdateRecord that write arbitrary references into metadata records are outside the '
                'vocabulary (the engine stores them unchecked)']
 TECHNIQUE = ('Coq proof of an inductive invariant over a hand-written executable model of the metadata cascades + '
@@ -45,8 +50,10 @@ TECHNIQUE = ('Coq proof of an inductive invariant over a hand-written executable
 LEVEL_TEXT = ('Kernel-checked: every modelled user action (tables, columns, views, sections, fields, pages, display and '
               'rule helpers, new summary tables) keeps all metadata references resolvable, the auto-removal loop ends '
               'with every helper column in use, hence every bundle and every reachable state; removals with '
-              'back-reference clearing leave no reference to a removed record. The full statement including '
-              'update_summary_section is refuted in Coq by the witness that also fails on the engine (known findings).')
+              'back-reference clearing leave no reference to a removed record; RemoveColumn of group-by sources and '
+              'UpdateSummaryViewSection included. One case is excluded and refuted in Coq by a witness that also fails '
+              'on the engine: UpdateSummaryViewSection applied by the user to the raw section of a summary table '
+              '(known finding).')
 LEVEL_NOTE = ('Kernel strength: what summary.py decides from names/types/formulas enters as recorded parameters; '
               'actions outside the model are covered by the oracle only (listed under assumptions).')
 
@@ -469,9 +476,9 @@ class RG(object):
 def coq_rg(d):
   z, zl = core.zlit, core.zlist
   remap = core.coq_list(['(%s, %s)' % (z(a), z(b)) for a, b in d['remap']])
-  return '(mkRG %s %s %s %s %s %s %s %s %s %s %s)' % (
+  return '(mkRG %s %s %s %s %s %s %s %s %s %s)' % (
     z(d['sec']), z(d['target']), z(d['name']), z(d['src']), zl(d['gb']), zl(d['gbkinds']), zl(d['fkinds']),
-    zl(d['added']), zl(d['dels']), remap, zl(d['new']))
+    zl(d['added']), remap, zl(d['new']))
 
 
 def regroup_of(g, names):
@@ -505,8 +512,8 @@ def regroup_of(g, names):
     d['fkinds'] = [c['kind'] for c in newcols[len(g['gb']):]]
   pf = {f['id']: f for f in pre['fields'] if f['section'] == sec}
   qf = {f['id']: f for f in post['fields'] if f['section'] == sec}
-  d['dels'] = sorted(i for i in pf if i not in qf)
-  d['remap'] = sorted((i, qf[i]['col']) for i in pf if i in qf and qf[i]['col'] != pf[i]['col'])
+  # every surviving field of the section with the column it shows afterwards (the others were deleted)
+  d['remap'] = sorted((i, qf[i]['col']) for i in pf if i in qf)
   d['new'] = [qf[i]['col'] for i in sorted(qf) if i not in pf]
   return RG(d)
 
@@ -523,6 +530,8 @@ def coq_op(o):
     if isinstance(a, (list, tuple)):
       if a and isinstance(a[0], RG):
         return core.coq_list([coq_rg(x.d) for x in a])
+      if o[0] == 'ORemoveColumnsG' and a is o[2]:
+        return '[]'
       return core.zlist(a)
     raise ValueError(a)
   if len(o) == 1:
@@ -695,7 +704,11 @@ def translate(a, P, Q, names, rgs=()):
     if a[1] not in T:
       return UNMODELLED
     cs = [c for c in P['columns'] if c['parent'] == T[a[1]]['id'] and c['colId'] == a[2]]
-    return ('ORemoveColumns', [cs[0]['id']]) if len(cs) == 1 else UNMODELLED
+    if len(cs) != 1:
+      return UNMODELLED
+    if any(c['summarySource'] == cs[0]['id'] for c in P['columns']):
+      return ('ORemoveColumnsG', [cs[0]['id']], [])     # group-by source, but no section to regroup
+    return ('ORemoveColumns', [cs[0]['id']])
   if name == 'AddView':
     if a[1].startswith('GristHidden_'):
       return UNMODELLED
@@ -922,6 +935,9 @@ TARGETED = [
   BASE_DOC + [[['RemoveColumn', 'T', 'B'], ['AddView', 'T_summary_B', 'raw_data', 'V']]],
   BASE_DOC + [[['RemoveColumn', 'T', 'B'], ['CreateViewSection', 2, 0, 'record', None, None]]],
   BASE_DOC + [[['RemoveColumn', 'T', 'B']]],
+  BASE_DOC + [[['UpdateSummaryViewSection', 4, []]]],
+  BASE_DOC + [[['UpdateSummaryViewSection', 4, [2, 3]]]],
+  BASE_DOC + [[['RemoveViewSection', 5], ['UpdateSummaryViewSection', 4, []]]],
   BASE_DOC + [[['AddRecord', '_grist_Views_section_field', None, {'parentId': 5, 'colRef': 6}]],
               [['UpdateSummaryViewSection', 5, []]]],
   BASE_DOC + [[['AddRecord', '_grist_Views_section_field', None, {'parentId': 5, 'colRef': 4}]],
@@ -1010,7 +1026,8 @@ def regroup_defects(r):
     if len(cols) != len(set(cols)):
       out.add('duplicate-field-regrouped')
     if any(t['raw'] == g['sec'] for t in g['pre']['tables']):
-      out.add('raw-section-regrouped')
+      direct = r['bundle'][g['action']][0] == 'UpdateSummaryViewSection'
+      out.add('update-summary-raw-section' if direct else 'raw-section-regrouped')
   return out
 
 
@@ -1019,10 +1036,10 @@ def classify(r, issues):
   defects = regroup_defects(r)
   if 'duplicate-field-regrouped' in defects:
     return 'duplicate-field-regrouped'
-  if 'raw-section-regrouped' in defects:
-    if all(i[0] in ('field.colRef', 'field.colRef-other-table', 'table.raw-of-other-table',
-                    'table.rawViewSectionRef') for i in issues):
-      return 'raw-section-regrouped'
+  for k in ('raw-section-regrouped', 'update-summary-raw-section'):
+    if k in defects and all(i[0] in ('field.colRef', 'field.colRef-other-table', 'table.raw-of-other-table',
+                                     'table.rawViewSectionRef') for i in issues):
+      return k
   return 'oracle:' + issues[0][0]
 
 
@@ -1052,13 +1069,14 @@ def collect(ctx):
   """All recorded bundles of this run (random histories + targeted ones), cached on ctx."""
   if getattr(ctx, '_c09_records', None) is not None:
     return ctx._c09_records
-  recs = run_histories(ctx, ctx.n(22, 260), ctx.n(10, 12))
-  ctx.log('recorded %d bundles of random histories on the engine' % len(recs))
-  for h in TARGETED:
+  recs = []
+  for h in TARGETED:            # the witnesses of the repaired defects and the scripted cascades run first
     r = replay_history(h)
     if r is not None:
       r['targeted'] = True
       recs.append(r)
+  recs.extend(run_histories(ctx, ctx.n(22, 260), ctx.n(10, 12)))
+  ctx.log('recorded %d bundles on the engine' % len(recs))
   if ctx.tier == 'thorough':
     recs.extend(small_scope(ctx))
   ctx._c09_records = recs
